@@ -4,6 +4,8 @@ package main
 import (
 	"bytes"
 	"fmt"
+	"runtime"
+	"sync/atomic"
 
 	gots "github.com/Comcast/gots/v2"
 	"github.com/Comcast/gots/v2/scte35"
@@ -186,8 +188,8 @@ func run(c *mon.Ctx) {
 	})
 	// the decoder is a function of its argument whoever else is decoding at the same time
 	c.Floor("concurrent.calls", 5000)
-	c.Stream("concurrent-decoders", c.N(3, 150), func(i int, r *gen.Rand) {
-		c.Concurrent("scte35.NewSCTE35", 8, 250, r, func(q *gen.Rand) string {
+	c.Stream("concurrent-decoders", c.N(8, 200), func(i int, r *gen.Rand) {
+		c.Concurrent("scte35.NewSCTE35", 8, 2000, r, func(q *gen.Rand) string {
 			s := ref.GenSig(q, true)
 			in := q.Slack(s.Payload())
 			x, err := scte35.NewSCTE35(in)
@@ -210,6 +212,79 @@ func run(c *mon.Ctx) {
 			return ""
 		})
 		c.Class("concurrent-decoders")
+	})
+	// one decoded signal read by several goroutines at once, right after it was decoded (nobody writes to it): every
+	// reader is given the encoded values
+	c.Stream("concurrent-readers-of-one-signal", c.N(8, 200), func(i int, r *gen.Rand) {
+		for round := 0; round < c.N(600, 600); round++ {
+			s := ref.GenSig(r, false)
+			for len(s.Descs) < 2 {
+				s.Descs = append(s.Descs, ref.GenSegDesc(r, false))
+			}
+			// long lists: a descriptor in component mode with 20..40 components, one with a MID of 20..60 entries
+			big := ref.GenSegDesc(r, false)
+			big.Cancel, big.ProgSeg, big.Comps, big.UPIDType, big.UPID, big.MID = false, false, nil, 0, nil, nil
+			big.HasDur, big.HasSub = false, false
+			for k := 20 + r.Intn(17); k > 0; k-- {
+				big.Comps = append(big.Comps, ref.SegComp{Tag: r.Byte(), Off: r.U33()})
+			}
+			s.Descs[0] = big
+			mid := ref.GenSegDesc(r, false)
+			mid.Cancel, mid.UPIDType, mid.UPID, mid.MID, mid.ProgSeg, mid.Comps = false, 0x0d, nil, nil, true, nil
+			for k := 20 + r.Intn(41); k > 0; k-- {
+				mid.MID = append(mid.MID, ref.UPID{Type: r.PickByte([]byte{0x08, 0x09, 0x0c}), Data: r.Bytes(1)})
+			}
+			s.Descs[1] = mid
+			if len(big.Enc()) > 257 || len(mid.Enc()) > 257 {
+				panic("harness: descriptor too long")
+			}
+			var arrived int32
+			x, err := scte35.NewSCTE35(s.Payload())
+			if err != nil || x == nil {
+				c.Fail("decode:error", fmt.Sprintf("a well-formed section was rejected: %v [%s]", err, s35.Shape(&s)), wit{Input: mon.Hex(s.Payload()), Shape: s35.Shape(&s)})
+				return
+			}
+			ms := s.SegDescs()
+			c.Concurrent("getters of one freshly decoded signal", 8, 2, r, func(q *gen.Rand) string {
+				// the readers start together
+				for atomic.AddInt32(&arrived, 1); atomic.LoadInt32(&arrived) < 8; {
+					runtime.Gosched()
+				}
+				ds := x.Descriptors()
+				if len(ds) != len(ms) || x.Tier() != s.Tier {
+					return fmt.Sprintf("%d descriptors / tier %#x read, %d / %#x encoded", len(ds), x.Tier(), len(ms), s.Tier)
+				}
+				for k, d := range ds {
+					m := ms[k]
+					if d == nil || d.EventID() != m.Event || d.SCTE35() != x {
+						return fmt.Sprintf("descriptor %d: event id or back reference differ from the encoded ones", k)
+					}
+					if m.Cancel {
+						continue
+					}
+					cs := d.Components()
+					if len(cs) != len(m.Comps) {
+						return fmt.Sprintf("descriptor %d: %d components read, %d encoded", k, len(cs), len(m.Comps))
+					}
+					for j, co := range cs {
+						if co == nil || co.ComponentTag() != m.Comps[j].Tag || uint64(co.PTSOffset()) != m.Comps[j].Off {
+							return fmt.Sprintf("descriptor %d component %d: missing or other values than encoded", k, j)
+						}
+					}
+					mid := d.MID()
+					if len(mid) != len(m.MID) {
+						return fmt.Sprintf("descriptor %d: %d MID entries read, %d encoded", k, len(mid), len(m.MID))
+					}
+					for j, u := range mid {
+						if u == nil || byte(u.UPIDType()) != m.MID[j].Type || !bytes.Equal(u.UPID(), m.MID[j].Data) {
+							return fmt.Sprintf("descriptor %d MID entry %d: missing or other values than encoded", k, j)
+						}
+					}
+				}
+				return ""
+			})
+		}
+		c.Class("concurrent-readers-of-one-signal")
 	})
 	// section_length is a 12-bit field: sections of 1024..4093 bytes decode like small ones
 	c.Floor("large.sections", 100)
